@@ -9,6 +9,7 @@ import (
 	"os"
 
 	"lcverif/common"
+	"lcverif/lcw"
 	"lcverif/rk"
 	"lcverif/rng"
 )
@@ -23,6 +24,10 @@ func die(f string, a ...interface{}) {
 func main() {
 	if len(os.Args) >= 2 && os.Args[1] == "rk-child" {
 		rk.ChildMain()
+		return
+	}
+	if len(os.Args) >= 2 && os.Args[1] == "kernel-helper" {
+		lcw.KernelHelperMain(os.Args[2:])
 		return
 	}
 	if len(os.Args) >= 3 && os.Args[2] == "referee" {
